@@ -171,6 +171,16 @@ func coreScenarios() []*Scenario {
 	}
 }
 
+// byzOnlyScenarios: power distributions chosen for what a Byzantine member could do with them if a validator
+// were unsound (explored in the Byzantine mode only): a Byzantine member that forms a DECIDE quorum with a single
+// honest member; a member holding more than two thirds alone next to a Byzantine minnow.
+func byzOnlyScenarios() []*Scenario {
+	return []*Scenario{
+		sc("skew4-byz", []int64{2, 31, 35, 32}, 3, nil, "b0", 2, []string{"a", "a", "a", ""}),
+		sc("whale4-byz", []int64{7, 1, 1, 1}, 3, nil, "b1", 2, []string{"a", "a", "aa", ""}),
+	}
+}
+
 // moreScenarios: added in the thorough tier.
 func moreScenarios() []*Scenario {
 	return []*Scenario{
@@ -277,7 +287,7 @@ var hon4odd = func() *Scenario {
 }()
 
 func scenarioByName(name string) *Scenario {
-	for _, s := range append(append(coreScenarios(), moreScenarios()...), hon4split, hon4pref, w5lag, triBound, eq4part, eq4slow, hon4odd, eq6slow) {
+	for _, s := range append(append(append(coreScenarios(), moreScenarios()...), byzOnlyScenarios()...), hon4split, hon4pref, w5lag, triBound, eq4part, eq4slow, hon4odd, eq6slow) {
 		if s.Name == name {
 			return s
 		}
